@@ -113,6 +113,14 @@ type endpoint struct {
 	// IPv4 when IPv6 endpoint is bound or connected to an IPv4 mapped
 	// address).
 	effectiveNetProtos []tcpip.NetworkProtocolNumber
+
+	// reservedNetProtos, reservedAddr and reservedPort say what was passed
+	// to ReservePort when the local port was reserved, so that Close gives
+	// back exactly that. A later Connect changes id.LocalAddress and
+	// effectiveNetProtos but makes no new reservation.
+	reservedNetProtos []tcpip.NetworkProtocolNumber
+	reservedAddr      tcpip.Address
+	reservedPort      uint16
 }
 
 // 多播的成员关系，包括多播地址和网卡ID
@@ -180,7 +188,7 @@ func (e *endpoint) Close() {
 		// 释放在协议栈中注册的UDP端
 		e.stack.UnregisterTransportEndpoint(e.regNICID, e.effectiveNetProtos, ProtocolNumber, e.id)
 		// 释放端口占用
-		e.stack.ReleasePort(e.effectiveNetProtos, ProtocolNumber, e.id.LocalAddress, e.id.LocalPort)
+		e.stack.ReleasePort(e.reservedNetProtos, ProtocolNumber, e.reservedAddr, e.reservedPort)
 	}
 
 	for _, mem := range e.multicastMemberships {
@@ -811,6 +819,8 @@ func (e *endpoint) registerWithStack(nicid tcpip.NICID, netProtos []tcpip.Networ
 	err := e.stack.RegisterTransportEndpoint(nicid, netProtos, ProtocolNumber, id, e)
 	if err != nil {
 		e.stack.ReleasePort(netProtos, ProtocolNumber, id.LocalAddress, id.LocalPort)
+	} else if e.id.LocalPort == 0 {
+		e.reservedNetProtos, e.reservedAddr, e.reservedPort = netProtos, id.LocalAddress, id.LocalPort
 	}
 	return id, err
 }
